@@ -19,7 +19,7 @@ from vf import core, frames, fresh, fresh_tasks
 PROPERTY = "C07"
 RULE = (
     "cases = histories (operation sequences): build(formula, frame), evaluate-common(design, frame), "
-    "evaluate-group(design, frame), set-config(mode), model_description(formula), rebuild(design) over a pool of 12 "
+    "evaluate-group(design, frame), set-config(mode), model_description(formula), rebuild(design) over a pool of 13 "
     "formulas x 4 frames (one training frame has a column of mean exactly 0, one a missing value and a formula uses every column of it; one with unseen levels so that the configuration matters, one with the shape of the training frame; one formula takes a function from extra_namespace and all builds share one captured Environment); all histories of "
     "length <= 3 over a reduced pool are enumerated, longer ones (up to 30 steps) come from a Hypothesis rule-based "
     "state machine; distinct = distinct history; non-trivial = some design is evaluated at least twice with different "
@@ -43,6 +43,7 @@ FORMULAS = [
     "y ~ 0 + S(f) + C(g, Sum):x",  # full-rank and reduced sum codings
     "y ~ 0 + T(g, 'g1') + poly(z, 2)",
     "y ~ x + z + w + f + g + h + C(k)",  # uses every column of the frames (one of which has a missing value in w)
+    "y ~ bs(x, knots=kn) + f",  # `kn` is a numpy array of the caller's namespace, not in increasing order
 ]
 USES_EXT = {8}
 MODES = ["error", "warning", "silent"]
@@ -105,7 +106,7 @@ class History:
 
         self.env = Environment.capture(0)  # one captured environment, reused by every build of this history
         self.builds = 0
-        self.namespaces = {v: {"np": np, "ext": fresh_tasks.EXT[v]} for v in ("double", "triple")}
+        self.namespaces = {v: {"np": np, "ext": fresh_tasks.EXT[v], "kn": np.array(fresh_tasks.KN)} for v in ("double", "triple")}
         self.namespace = self.namespaces["double"]
         self.ns_ids = {v: {k: id(o) for k, o in d.items()} for v, d in self.namespaces.items()}
         self.variants = []
@@ -238,6 +239,11 @@ class History:
         if {v: {k: id(o) for k, o in d.items()} for v, d in self.namespaces.items()} != self.ns_ids:
             self.fail("caller_namespace", f"after step {step} {self.ops[step]}: a namespace dict passed by the caller changed", "namespace")
             self.ns_ids = {v: {k: id(o) for k, o in d.items()} for v, d in self.namespaces.items()}
+        for v, d in self.namespaces.items():
+            if d["kn"].tolist() != fresh_tasks.KN:
+                self.fail("caller_namespace", f"after step {step} {self.ops[step]}: an array of the caller's namespace was modified in place "
+                          f"({d['kn'].tolist()}, was {fresh_tasks.KN})", "namespace_value")
+                d["kn"][:] = fresh_tasks.KN
         if config["EVAL_UNSEEN_CATEGORIES"] != self.mode:
             self.fail("config", f"after step {step} {self.ops[step]}: configuration is {config['EVAL_UNSEEN_CATEGORIES']!r}, set to {self.mode!r}", "config")
             config["EVAL_UNSEEN_CATEGORIES"] = self.mode
